@@ -28,7 +28,7 @@ var c15names = []string{"alpha", "beta", "gamma"}
 // pointer-form routes: built from pointer AST nodes as API users (and pkg/jit's own tests) build
 // them; the optimizer only rewrites this form, so only here do the optimised tiers differ from
 // the baseline. "p-orders" assigns literals to variables that "p-items" reads from its inputs.
-var c15ptrNames = []string{"p-orders", "p-items", "p-consts"}
+var c15ptrNames = []string{"p-orders", "p-items", "p-consts", "p-flow"}
 
 func c15ptrRoute(name string, v int) *ast.Route {
 	lit := func(n int) ast.Expr { return &ast.LiteralExpr{Value: ast.IntLiteral{Value: int64(n)}} }
@@ -47,6 +47,48 @@ func c15ptrRoute(name string, v int) *ast.Route {
 			&ast.ReturnStatement{Value: &ast.ObjectExpr{Fields: []ast.ObjectField{
 				{Key: "r", Value: str("p-orders")}, {Key: "v", Value: lit(v)}, {Key: "y", Value: vr("w")}, {Key: "lim", Value: vr("lim")},
 			}}},
+		}}
+	}
+	if name == "p-flow" {
+		// variables that are constants in front of a loop and change inside it, under a switch
+		// case, a default branch, an if — with reads placed in front of the change in the loop body
+		bin := func(l ast.Expr, op ast.BinOp, r ast.Expr) ast.Expr { return &ast.BinaryOpExpr{Left: l, Op: op, Right: r} }
+		as := func(t string, e ast.Expr) ast.Statement { return &ast.AssignStatement{Target: t, Value: e} }
+		re := func(t string, e ast.Expr) ast.Statement { return &ast.ReassignStatement{Target: t, Value: e} }
+		items := []ast.Expr{lit(1), lit(2), lit(1), lit(3), lit(v % 4)}
+		var fs []ast.ObjectField
+		fs = append(fs, ast.ObjectField{Key: "r", Value: str("p-flow")}, ast.ObjectField{Key: "v", Value: lit(v)})
+		for _, k := range []string{"seen", "before", "tally", "evens", "lastEven", "i", "idx", "x1", "y1", "flag", "a1", "s1", "kept"} {
+			fs = append(fs, ast.ObjectField{Key: k, Value: vr(k)})
+		}
+		return &ast.Route{Method: ast.Get, Path: "/flow", Body: []ast.Statement{
+			as("seen", lit(0)), as("before", lit(0)), as("tally", lit(v)), as("idx", lit(0)),
+			&ast.ForStatement{KeyVar: "k", ValueVar: "x", Iterable: &ast.ArrayExpr{Elements: items}, Body: []ast.Statement{
+				re("before", vr("seen")),
+				re("idx", bin(vr("idx"), ast.Add, vr("k"))),
+				&ast.SwitchStatement{Value: vr("x"), Cases: []ast.SwitchCase{
+					{Value: lit(1), Body: []ast.Statement{re("seen", bin(vr("seen"), ast.Add, lit(1)))}},
+					{Value: lit(3), Body: []ast.Statement{re("tally", bin(vr("tally"), ast.Add, lit(10)))}},
+				}, Default: []ast.Statement{re("tally", bin(vr("tally"), ast.Add, lit(1)))}},
+			}},
+			as("i", lit(0)), as("evens", lit(0)), as("lastEven", lit(0)),
+			&ast.WhileStatement{Condition: bin(vr("i"), ast.Lt, lit(5)), Body: []ast.Statement{
+				re("lastEven", vr("evens")),
+				&ast.IfStatement{Condition: bin(bin(vr("i"), ast.Mod, lit(2)), ast.Eq, lit(0)), ThenBlock: []ast.Statement{re("evens", bin(vr("evens"), ast.Add, lit(1)))}},
+				re("i", bin(vr("i"), ast.Add, lit(1))),
+			}},
+			// what is known after a branch or a loop is what holds on every way through it
+			as("x1", lit(1)),
+			&ast.IfStatement{Condition: bin(vr("i"), ast.Gt, lit(3)), ThenBlock: []ast.Statement{re("x1", lit(2))}, ElseBlock: []ast.Statement{re("x1", lit(3))}},
+			as("y1", lit(7)),
+			&ast.IfStatement{Condition: bin(vr("i"), ast.Gt, lit(9)), ThenBlock: []ast.Statement{re("y1", lit(8))}},
+			as("flag", lit(0)), as("j", lit(9)), as("kept", lit(5)),
+			&ast.WhileStatement{Condition: bin(vr("j"), ast.Lt, vr("i")), Body: []ast.Statement{re("flag", lit(1)), as("kept", bin(lit(2), ast.Mul, lit(3))), re("j", bin(vr("j"), ast.Add, lit(1)))}},
+			// a copy keeps the value it was given when its source moves on
+			as("a1", vr("evens")),
+			re("evens", bin(vr("evens"), ast.Add, lit(1))),
+			as("s1", bin(vr("a1"), ast.Add, vr("evens"))),
+			&ast.ReturnStatement{Value: &ast.ObjectExpr{Fields: fs}},
 		}}
 	}
 	if name == "p-consts" {
